@@ -7,7 +7,8 @@ from hio.core.udp import udping
 ID = 'C21'
 EXPLANATION = ("Real Memoer.gramit / _serviceOnceTxGrams / serviceTxGramsOnce / serviceTxGrams with the transport's send() replaced by a "
                "scripted one: per call it accepts a SYMBOLIC count 0..len of the offered bytes (0 = would-block), or raises an "
-               "'unreachable destination' errno (solver-chosen). 2-3 queued grams of 1-3 bytes for two destinations, a solver-chosen "
+               "'unreachable destination' errno (solver-chosen). 2-3 queued grams of 1-3 bytes for two destinations (queued as bytes, and - own partitions - as ONE bytearray object "
+               "queued for both destinations), a solver-chosen "
                "number of service calls of either kind under back-pressure, followed by calls with a fully accepting transport. Oracle: "
                "per destination the bytes the transport accepted are exactly the concatenation of the queued grams in queue order minus "
                "exactly the grams for which unreachable was reported, nothing duplicated, and after the accepting calls everything "
@@ -19,7 +20,7 @@ BOUNDS = {'quick': dict(grams=2, calls=3, budget_s=150, audit_max=8), 'thorough'
 OUTSIDE = ['more grams / service calls under back-pressure than the bound', 'grams longer than 3 bytes', 'real sockets', 'the memo -> gram segmentation (C20)']
 STUBS = ['scripted transport send(); FakeNet sendto for the udp Peer.send form']
 ASSUMPTIONS = ['a transport send() never reports more bytes than offered']
-REQUIRED_TAGS = ['zero-accepted-fresh-gram', 'partial-accepted', 'unreachable-fresh-gram', 'unreachable-on-remainder', 'last-gram-partial', 'two-destinations']
+REQUIRED_TAGS = ['same-bytearray-queued-twice', 'zero-accepted-fresh-gram', 'partial-accepted', 'unreachable-fresh-gram', 'unreachable-on-remainder', 'last-gram-partial', 'two-destinations']
 RULE = 'tags: would-block on a freshly dequeued gram, partial acceptance, unreachable on a fresh gram and on a remainder, partial send of the last queued gram'
 GRAMS = [b'abc', b'de', b'f']
 DSTS = ['d1', 'd2', 'd1']
@@ -31,6 +32,9 @@ def partitions(tier):
     for n in range(1, b['grams'] + 1):
         for first in ('zero', 'partial', 'full', 'unreachable'):
             ps.append(dict(name='g%d-first-%s' % (n, first), form='tx', n=n, first=first, calls=b['calls']))
+    for first in ('zero', 'partial', 'full', 'unreachable'):
+        # the application queues ONE bytearray object for two destinations (fan-out): servicing must not consume the caller's object
+        ps.append(dict(name='shared-g%d-first-%s' % (min(3, b['grams'] + 0), first), form='tx', n=min(3, b['grams'] + 0), first=first, calls=b['calls'], shared=True))
     ps.append(dict(name='udp-send-errno', form='udp'))
     return ps
 
@@ -55,6 +59,7 @@ class Tx(memoing.Memoer):
 
 def harness_tx(sym, part):
     n = part['n']
+    GRAMS = globals()['GRAMS'] if not part.get('shared') else [b'abc', b'abc', b'f']
     calls_made = [0]
     mode = ['pressure']
     saved = memoing.logger
@@ -87,7 +92,13 @@ def harness_tx(sym, part):
             return len(gram)
         tx = Tx(script, name='tx')
         tx.opened = True
-        for g, d in zip(GRAMS[:n], DSTS[:n]):
+        if part.get('shared'):
+            shared = bytearray(GRAMS[0])
+            objs = [shared, shared, bytearray(GRAMS[2])][:n]
+            sym.cover('same-bytearray-queued-twice')
+        else:
+            objs = GRAMS[:n]
+        for g, d in zip(objs, DSTS[:n]):
             tx.gramit(g, d)
         if n > 1:
             sym.cover('two-destinations')
